@@ -182,6 +182,12 @@ def opCorr (j : Json) : Except String Json := do
   | "sqrt" => pure (corrResult (.ok (a.mapCells (fun x => Float.pow x 0.5))))
   | "log" => pure (corrResult (.ok (a.mapCells Float.log)))
   | "exp" => pure (corrResult (.ok (a.mapCells Float.exp)))
+  | "ctor_matrix" => do
+      let rows : List Json ← get j "cs"
+      let cs ← rows.mapM (fun r => do
+        let l : List Json ← dec r
+        l.mapM decCorr)
+      pure (corrResult (Corr.ofMatrix cs))
   | "roll" => do let dt : Int ← get j "dt"; pure (corrResult (.ok (a.roll dt)))
   | "reverse" => pure (corrResult (.ok a.reverse))
   | "thin" => do pure (corrResult (.ok (a.thin (← get j "spacing") (← get j "offset"))))
